@@ -1049,7 +1049,25 @@ pub fn run(suite: &str, thorough: bool, seed: u64, shard: usize, nshards: usize,
                 if gen::has_overflowing_code(&d) {
                     continue; // the siblings must be well-formed
                 }
-                let g: Vec<String> = if r.chance(1, 2) {
+                let is_enum = matches!(d.item.kind, doc::ItemKind::Enum);
+                let g: Vec<String> = if !is_enum && r.chance(1, 6) {
+                    // generic types with the wrong number of parameters, written as a member would be
+                    let tys = ["String", "int", "Foo", "a.B", "List<String>", "int[]"];
+                    let n = *r.pick(&[1usize, 3, 4]);
+                    let params: Vec<String> = (0..n).map(|_| (*r.pick(&tys)).to_owned()).collect();
+                    let bad = if r.chance(2, 3) {
+                        format!("Map < {} >", params.join(" , "))
+                    } else {
+                        format!("List < {} >", (0..(if n == 1 { 2 } else { n })).map(|_| (*r.pick(&tys)).to_owned()).collect::<Vec<_>>().join(" , "))
+                    };
+                    let text = match r.below(4) {
+                        0 => format!("{} x", bad),
+                        1 => format!("{} f ( )", bad),
+                        2 => format!("void f ( in {} m )", bad),
+                        _ => format!("List < {} > y", bad),
+                    };
+                    text.split(' ').filter(|t| !t.is_empty()).map(|t| t.to_owned()).collect()
+                } else if r.chance(1, 2) {
                     let len = r.range(1, 6);
                     (0..len).map(|_| (*r.pick(&vocab)).to_owned()).collect()
                 } else {
@@ -1090,7 +1108,7 @@ pub fn run(suite: &str, thorough: bool, seed: u64, shard: usize, nshards: usize,
                         _ => toks.insert(k, (*r.pick(&vocab)).to_owned()),
                     }
                     // no terminator or brace inside
-                    toks.retain(|t| t != ";" && t != "," && t != "{" && t != "}");
+                    toks.retain(|t| t != ";" && (t != "," || !is_enum) && t != "{" && t != "}");
                     if toks.is_empty() {
                         continue;
                     }
